@@ -20,6 +20,10 @@ type Scenario struct {
 	Steps   []Step `json:"steps"`
 	// Threads, if present, run concurrently after Steps (each thread issues its requests in order).
 	Threads [][]*Req `json:"threads,omitempty"`
+	// Wire: origin replies are rendered as raw HTTP/1.x bytes and delivered through a real
+	// net/http.Transport over an in-memory pipe, instead of being handed over as ready-made
+	// *http.Response values (so the cache sees exactly what a real transport produces).
+	Wire bool `json:"wire,omitempty"`
 	// Controlled: the concurrent phase runs under a controller that parks every store and
 	// origin operation and lets exactly one proceed at a time; Sched picks, at the i-th decision,
 	// the (Sched[i] mod #pending)-th pending operation in canonical order (0 once exhausted).
